@@ -203,6 +203,20 @@ CHECKS = {
                 "forwarded at hop count 0; rings of 3..5 routers bound the frames of a global broadcast.",
         "note": "router discovery traffic in cyclic topologies (re-originated per hop, no hop count) is outside the statement and not generated",
     },
+    "C13": {
+        "level": "exploration",
+        "design_ref": "DESIGN.md 3 C13",
+        "technique": "runtime monitor: unique broadcast tokens + Annex-J expectation model over real BIPSimple/BIPBBMD/BIPForeign instances on a virtual IP internetwork; registration intervals reconstructed from the wire with an independent BVLC parser; virtual-time probes across every edge",
+        "text": "Random layouts of 1..5 subnets with BBMDs, ordinary nodes and foreign devices (full and partial tables, "
+                "one-hop and two-hop entries) are assembled from the real B/IP classes; every node broadcasts a unique "
+                "token and the deliveries above each B/IP layer must be at most once per node, never at the "
+                "originator, with the originator as source, and complete on well-formed layouts.  Foreign-device life "
+                "cycles (TTL 1..300 s) are driven under the virtual clock: while a registration acknowledged on the wire "
+                "is within its TTL the device must be served in both directions and listed by Read-FDT, renewals must "
+                "come within the TTL, and after TTL+30 s+1 s without renewal, after an acknowledged Delete-FDT-Entry and "
+                "30 s after unregistration it must be neither served nor listed - probed every second across each edge.",
+        "note": "between TTL and TTL+grace either behaviour is accepted (the grace constant of the implementation is not assumed)",
+    },
 }
 
 NOT_APPLICABLE = {pid: _PENDING for pid in ("C%02d" % i for i in range(1, 21)) if pid not in CHECKS}
